@@ -49,5 +49,5 @@ PROP = dict(
                 "primality of n are premises. Known findings replayed on every run (inherent to ECDSA, F6): message-plus-n-same-key, r1-message-plus-n-same-key."),
     technique="Coq proof over an abstract group + differential run (public API, both k1 back-ends, p256, ed25519-dalek, real interpreter) vs executable model",
     design_ref="6/C17",
-    model_timeout=1500,
+    model_timeout=1500, coqchk_timeout=900,
 )
